@@ -322,6 +322,11 @@ def install(lib):
         d.update(k)
         return d
 
+    def b_dict_fromkeys(ex, keys, value=None):
+        """dict.fromkeys(keys, value): every key maps to the SAME value object (aliasing kept: a mutable value is shared)"""
+        return {ex.key(kk): value for kk in ex.concrete_iter(keys)}
+    b_dict.pyvc_attrs = {"fromkeys": b_dict_fromkeys}
+
     def b_set(ex, x=()):
         items = ex.concrete_iter(x)
         if items is None:
@@ -873,6 +878,9 @@ def install(lib):
 
     def lax_cond(ex, pred, tf, ff, *ops):
         used(ex, "jax.lax.cond(p, f, g, *ops) evaluates exactly one branch: f(*ops) if p else g(*ops) (un-vmapped)")
+        if ex.opts.get("cond_raises"):
+            # the tracing-time failure mode of lax.cond: the two branches' results cannot be unified (TypeError), neither result is available
+            raise RaiseEx(ex.opts["cond_raises"], None)
         if ex.decide(ex.truth(pred)):
             return ex.call(tf, list(ops), {})
         return ex.call(ff, list(ops), {})
